@@ -29,7 +29,7 @@ import subprocess
 notes = open(os.path.join(dst, "notes.md")).read() if os.path.exists(os.path.join(dst, "notes.md")) else ""
 meta = {"breaks_property": pid, "mutant": m, "written_by": "independent sub-agent given only the property text and a scratch worktree",
         "needs_to_manifest": notes.strip(),
-        "base_commit": subprocess.check_output(["git", "-C", "/repo", "rev-parse", "--short", "HEAD"]).decode().strip() if "r2" in dst else "2993898 (pinned)",
+        "base_commit": subprocess.check_output(["git", "-C", "/repo", "rev-parse", "--short", "HEAD"]).decode().strip() if ("r2" in dst or "r3" in dst) else "2993898 (pinned)",
         "confirmed": {"demo_on_base_tree": "exit 0", "test_suite_with_patch": "45 passed (pytest -q, scratch worktree)",
                       "demo_with_patch": "non-zero exit"},
         "how_to_run": "git -C /repo apply %s/patch.diff; cd /verif && /venv/bin/python run_check.py %s --tier quick; git -C /repo checkout -- ." % (dst, pid),
